@@ -30,8 +30,24 @@ func TestProp(t *testing.T) {
 	c.Check(t, func(rt *rapid.T) {
 		s := e2.DrawStructural(rt, e2.StructOpt{
 			Env:    progen.EnvOpt{Avoid: c.ActiveSet()},
-			NTypes: 14, EnumChunks: true, TopShapes: true,
-			Roles:  []string{"clone", "deepcopy"},
+			NTypes: 14, EnumChunks: true, Carriers: true, TopShapes: true,
+			Roles: []string{"clone", "deepcopy"},
+			// the deepcopy generator has one branch per (container, element copyable by assignment or not):
+			// arrays of references as map values, slice elements and array elements are each their own path
+			EnumFn: func(env *progen.Env) []*progen.Type {
+				refs := []*progen.Type{progen.SliceOf(progen.B("int")), progen.PtrTo(progen.B("string")), progen.MapOf(progen.B("string"), progen.B("int")), progen.SliceOf(progen.B("string"))}
+				r := refs[rapid.IntRange(0, len(refs)-1).Draw(rt, "c05-ref")]
+				arr := progen.ArrayOf(rapid.IntRange(1, 3).Draw(rt, "c05-arrlen"), r)
+				out := []*progen.Type{
+					progen.MapOf(progen.B("string"), arr),
+					progen.SliceOf(arr),
+					progen.PtrTo(progen.ArrayOf(2, arr)),
+				}
+				if len(env.KeyStructs) > 0 {
+					out = append(out, progen.MapOf(progen.NamedT(env.KeyStructs[0]), progen.ArrayOf(2, arr)))
+				}
+				return out
+			},
 		})
 		e2.RunCase(c, rt, s, e2.Options{Property: prop, Harness: "c05", Checks: checks(c)})
 	})
